@@ -61,8 +61,13 @@ def build_dlis(rng):
         for t, ty in enumerate(types):
             order += [t] * ty['n']
         rng.shuffle(order)
-        recs += [dict(kind='E', type=0, enc=False), dict(kind='E', type=1, enc=False), dict(kind='E', type=3, enc=False), dict(kind='E', type=4, enc=False)]
-        payloads += [GL.file_header(seq=lf + 1), GL.origin_full(), GL.channel_eflr(rng.sample(chans_all, len(chans_all)) if rng.random() < 0.6 else chans_all),
+        # a PARAMETER table whose values differ from file to file (the ORIGIN does not): it ends up in the LAS parameter section
+        ptab = GL.simple_eflr(b'PARAMETER', [(b'LONG-NAME', 20, None, None), (b'VALUES', 20, None, None)],
+                              [((1, 0, b'RIG'), [[b'Rig name'], [b'RIG #%d' % rng.randrange(10 ** 6)]]), ((1, 0, b'BS'), [[b'Bit size'], [b'%d' % rng.randrange(100)]])])
+        recs += [dict(kind='E', type=0, enc=False), dict(kind='E', type=1, enc=False), dict(kind='E', type=5, enc=False), dict(kind='E', type=3, enc=False),
+                 dict(kind='E', type=4, enc=False)]
+        payloads += [GL.file_header(seq=lf + 1), GL.origin_full(), ptab,
+                     GL.channel_eflr(rng.sample(chans_all, len(chans_all)) if rng.random() < 0.6 else chans_all),
                      GL.frame_eflr([dict(name=ty['name'], channels=ty['channels']) for ty in types])]
         counters = [0] * ntypes
         for t in order:
